@@ -1010,3 +1010,143 @@ def _(eng, ci, a, sp):
         v.items.sort()
         return UNIT
     raise Unsupported('sort of symbolic items')
+
+
+@S('Vec::resize')
+def _(eng, ci, a, sp):
+    v = deref_all(a[0])
+    n = conc(eng, a[1], 'new length')
+    if n < len(v.items):
+        del v.items[n:]
+    else:
+        v.items.extend(clone_val(a[2]) for _ in range(n - len(v.items)))
+    return UNIT
+
+
+@S('Vec::swap_remove')
+def _(eng, ci, a, sp):
+    v = deref_all(a[0])
+    i = conc(eng, a[1])
+    if i >= len(v.items):
+        raise Panic('swap_remove index out of bounds', sp, kind='bounds')
+    x = v.items[i]
+    v.items[i] = v.items[-1]
+    v.items.pop()
+    return x
+
+
+@S('Vec::split_off')
+def _(eng, ci, a, sp):
+    v = deref_all(a[0])
+    i = conc(eng, a[1])
+    if i > len(v.items):
+        raise Panic('split_off index out of bounds', sp, kind='bounds')
+    tail = v.items[i:]
+    del v.items[i:]
+    return Vec(tail, v.kind)
+
+
+@S('Vec::dedup')
+def _(eng, ci, a, sp):
+    v = deref_all(a[0])
+    out = []
+    for x in v.items:
+        if out and eng.branch(values_eq(eng, out[-1], x)):
+            continue
+        out.append(x)
+    v.items[:] = out
+    return UNIT
+
+
+@S('Vec::reserve', 'String::reserve', 'Vec::shrink_to_fit', 'OsString::reserve', 'Vec::reserve_exact')
+def _(eng, ci, a, sp):
+    return UNIT
+
+
+@S('Vec::capacity', 'String::capacity')
+def _(eng, ci, a, sp):
+    return len(seq(a[0]))
+
+
+@S('String::truncate')
+def _(eng, ci, a, sp):
+    v = deref_all(a[0])
+    n = conc(eng, a[1])
+    if n <= len(v.items):
+        del v.items[n:]
+    return UNIT
+
+
+@S('String::pop')
+def _(eng, ci, a, sp):
+    v = deref_all(a[0])
+    if not v.items:
+        return none()
+    x = v.items.pop()
+    if isinstance(x, int) and x >= 0x80:
+        raise Unsupported('String::pop of non-ASCII')
+    return some(x if isinstance(x, int) else z3.ZeroExt(24, x))
+
+
+@S('String::insert')
+def _(eng, ci, a, sp):
+    v = deref_all(a[0])
+    i = conc(eng, a[1])
+    for k, b in enumerate(encode_char(eng, a[2])):
+        v.items.insert(i + k, b)
+    return UNIT
+
+
+@S('String::insert_str')
+def _(eng, ci, a, sp):
+    v = deref_all(a[0])
+    i = conc(eng, a[1])
+    v.items[i:i] = list(deref_all(a[2]).items)
+    return UNIT
+
+
+@S('impl_slice::copy_from_slice', 'impl_slice::clone_from_slice')
+def _(eng, ci, a, sp):
+    d = deref_all(a[0])
+    s_ = deref_all(a[1])
+    if len(d.items) != len(s_.items):
+        raise Panic('source slice length does not match destination', sp, kind='bounds')
+    d.items[:] = list(s_.items)
+    return UNIT
+
+
+@S('impl_slice::fill')
+def _(eng, ci, a, sp):
+    d = deref_all(a[0])
+    d.items[:] = [clone_val(a[1]) for _ in d.items]
+    return UNIT
+
+
+@S('impl_slice::swap')
+def _(eng, ci, a, sp):
+    d = deref_all(a[0])
+    i, j = conc(eng, a[1]), conc(eng, a[2])
+    if i >= len(d.items) or j >= len(d.items):
+        raise Panic('swap index out of bounds', sp, kind='bounds')
+    d.items[i], d.items[j] = d.items[j], d.items[i]
+    return UNIT
+
+
+@S('impl_slice::split_first', 'impl_slice::split_last')
+def _(eng, ci, a, sp):
+    b = deref_all(a[0])
+    if not b.items:
+        return none()
+    if ci.method == 'split_first':
+        return some(Struct('()', [new_cell(b.items[0]), Bytes(b.items[1:], getattr(b, 'kind', 'slice'))]))
+    return some(Struct('()', [new_cell(b.items[-1]), Bytes(b.items[:-1], getattr(b, 'kind', 'slice'))]))
+
+
+@S('impl_slice::iter_rposition', 'impl_slice::rposition')
+def _(eng, ci, a, sp):
+    raise Unsupported('slice rposition')
+
+
+@S('impl_slice::concat_bytes')
+def _(eng, ci, a, sp):
+    raise Unsupported('concat')
